@@ -218,4 +218,4 @@ def replay(j):
     print("program:", describe(prog, regs))
     print("now:", bad or "simulator and reference agree")
     print("recorded:", j.get("what"))
-    return bad is not None
+    return bad is None          # True = the contract holds now
